@@ -180,7 +180,12 @@ func (x *Exec) evalBuiltin(s *State, call *ast.CallExpr, name string) []*Term {
 			}
 			el := x.u.sliceElem(srt)
 			arr := &Term{Op: "const-array", Sort: arraySort(SInt, el), Args: []*Term{x.u.zero(el)}}
-			return []*Term{withType(x.u.mkSlice(srt, n, arr), t)}
+			r := x.u.mkSlice(srt, n, arr)
+			if isNumZero(n) {
+				r = x.u.mkSlice(srt, n, x.fresh("emptymake", arraySort(SInt, el)))
+			}
+			s.assume(Not(mk("isnil_"+srt, SBool, r)))
+			return []*Term{withType(r, t)}
 		}
 		x.fail(call, "unsupported make(%s)", t)
 	case "new":
@@ -265,7 +270,15 @@ func (x *Exec) evalArgs(s *State, call *ast.CallExpr, sig *types.Signature) []*T
 			break
 		}
 		a := call.Args[i]
-		v := x.eval(s, a)
+		var v *Term
+		if id, ok := ast.Unparen(a).(*ast.Ident); ok {
+			if _, isNil := x.info.Uses[id].(*types.Nil); isNil {
+				v = x.u.zero(x.u.sortOf(p.Type()))
+			}
+		}
+		if v == nil {
+			v = x.eval(s, a)
+		}
 		if x.u.sortOf(p.Type()) == SAny && v.Sort != SAny {
 			v = x.boxTyped(s, v, x.info.TypeOf(a))
 		}
@@ -414,6 +427,43 @@ func (x *Exec) callFuncValue(s *State, call *ast.CallExpr, v *types.Var) []*Term
 				}
 			}
 		}
+	}
+	// local variable that is only ever assigned named functions: case split over the candidates
+	if cands := x.funcCandidates(v); len(cands) > 0 {
+		fv := x.evalVar(s, v)
+		args := x.evalArgs(s, call, sig)
+		var outs []*State
+		var results [][]*Term
+		for _, f := range cands {
+			name := x.u.funcName(f)
+			c := x.u.Specs.Contracts[name]
+			if c == nil {
+				x.fail(call, "no contract for candidate callee %s of %s", name, v.Name())
+			}
+			b := s.clone()
+			b.assume(Eq(fv, V("fn."+name, SFn)))
+			r := x.callByContract(b, c, name, sig, nil, args, nil, call)
+			outs = append(outs, b)
+			results = append(results, r)
+		}
+		// the variable holds one of the candidates
+		var alts []*Term
+		for _, f := range cands {
+			alts = append(alts, Eq(fv, V("fn."+x.u.funcName(f), SFn)))
+		}
+		x.oblige(s, "fnvalue", v.Name(), Or(alts...), "function variable holds one of its syntactic candidates", "")
+		// merge: results become fresh symbols constrained per branch
+		merged := x.merge(outs)[0]
+		final := make([]*Term, sig.Results().Len())
+		for i := range final {
+			rs := x.u.sortOf(sig.Results().At(i).Type())
+			final[i] = withType(x.fresh("r."+v.Name(), rs), sig.Results().At(i).Type())
+			for j, f := range cands {
+				merged.assume(Implies(Eq(fv, V("fn."+x.u.funcName(f), SFn)), Eq(final[i], results[j][i])))
+			}
+		}
+		*s = *merged
+		return final
 	}
 	// function-typed parameter / variable with a named contract "<func>.<var>"
 	name := x.fi.Name + "." + v.Name()
@@ -631,4 +681,47 @@ func (x *Exec) pkgOfContract(name string) *types.Package {
 		return p.Types
 	}
 	return nil
+}
+
+// funcCandidates: the named functions assigned to local variable v anywhere in the function (nil if any other
+// kind of value is assigned).
+func (x *Exec) funcCandidates(v *types.Var) []*types.Func {
+	var out []*types.Func
+	ok := true
+	seen := map[*types.Func]bool{}
+	consider := func(lhs ast.Expr, rhs ast.Expr) {
+		id, isID := lhs.(*ast.Ident)
+		if !isID {
+			return
+		}
+		if x.info.Defs[id] != v && x.info.Uses[id] != v {
+			return
+		}
+		rid, isRID := ast.Unparen(rhs).(*ast.Ident)
+		if !isRID {
+			ok = false
+			return
+		}
+		f, isF := x.info.Uses[rid].(*types.Func)
+		if !isF {
+			ok = false
+			return
+		}
+		if !seen[f] {
+			seen[f] = true
+			out = append(out, f)
+		}
+	}
+	ast.Inspect(x.fi.Body, func(n ast.Node) bool {
+		if as, isAs := n.(*ast.AssignStmt); isAs && len(as.Lhs) == len(as.Rhs) {
+			for i := range as.Lhs {
+				consider(as.Lhs[i], as.Rhs[i])
+			}
+		}
+		return true
+	})
+	if !ok {
+		return nil
+	}
+	return out
 }
